@@ -10,6 +10,10 @@ Correspondence streams
   ini    hand-written INI texts (':' delimiters, comments, continuation lines, errors) against the model's parser
   e2e    fingerprints computed via a parameter file equal those from the same options passed directly
   dflt   Python twin of the theorem defaults_coherent (gives the concrete mismatch when the theorem breaks)
+  cov    c20_cov.py (coverage audit): read_params / update_params call forms on user files and parser objects, typed
+         getters and their fallback, get_default_value, numpy scalars, params_to_sections_dict(auto=False), sections
+         outside the packaged three, unusual option names, multi-conformer / fingerprint.generate.run(params=) /
+         conformer-option end-to-end comparisons
 """
 import ast
 import itertools
@@ -17,12 +21,14 @@ import math
 import re
 import os
 import struct
+import sys
 from fractions import Fraction
 
 import core
 import config_gen as G
+from props import c20_cov as COV
 
-IMPORTS = ['From Coq Require Import QArith.', 'From E3FP Require Import Base.Prelude Model.Config Gen.Defaults.']
+IMPORTS = ['From Coq Require Import QArith.', 'From E3FP Require Import Base.Prelude Model.Config Gen.Defaults.', COV.PRELUDE]
 S = G.coq_string
 SECTIONS = G.SECTIONS
 
@@ -158,7 +164,9 @@ def gen_plain_word(rng):
         if r < 0.3:
             s = rng.choice(['uff', 'mmff94', 'mmff94s', 'conformers', 'out/dir-1', './x.sdf.bz2', '/tmp/a_b', '../c', 'Nonesuch',
                             'True1', 'none', 'true', 'inf', 'nan', 'e5', 'x1e5', 'j', 'l', 'set', 'lambda', 'not', 'None-1',
-                            'True.x', '.hidden', './-', 'a-1j', 'in', 'is', 'None/x', 'False-', 'set-1', '.e5', './5'])
+                            'True.x', '.hidden', './-', 'a-1j', 'in', 'is', 'None/x', 'False-', 'set-1', '.e5', './5',
+                            'yes', 'no', 'on', 'off', 'Yes', 'NO', 'On', 'OFF', 'TRUE', 'FALSE', 'tRuE', 'fAlse', 'infinity', 'Infinity',
+                            'NAN', 'Inf', 'INF', 'NaN', 'y', 'n', 't', 'f', 'yes1', 'on-', 'UFF', 'Uff'])
         else:
             s = rng.choice(PLAIN_FIRST) + ''.join(rng.choice(PLAIN_CHARS) for _ in range(rng.randint(0, 9)))
         if py_plain_word(s):
@@ -209,7 +217,10 @@ TRICKY = ['None', 'True', 'False', '1e5', '5', '-3', '0.5', ' padded ', '\ttab',
           '"dq"', '1+2j', '[1, 2]', '(1, 2)', "{'a': 1}", '{}', '()', '[]', '1,2', '...', '.5', '1.', '1e400', '-inf', 'inf', 'nan',
           'NaN', '- 5', '+5', '--5', '00', '01', '1j', "b'x'", "r'x'", 'set()', 'None,', '5 #c', '[section]', '[', '= x', ': y',
           'key = value', '1.2.3', '2017-01-01', '1e', 'e5', '~5', 'not', '{[]:1}', '{[]}', 'a\nb', 'a\n b', 'a\n\nb', 'a\n#b', 'a\n',
-          'a\n[x]', 'a\nk = v', '0b101', '0o17', '1__0', '٣', 'naïve', 'λ']
+          'a\n[x]', 'a\nk = v', '0b101', '0o17', '1__0', '٣', 'naïve', 'λ',
+          # spellings the typed getters accept / refuse (int(), float(), BOOLEAN_STATES)
+          '1', '0', '+7', '-0', '007', '1_0', '1e3', '5.', '-2.5e-3', '-Infinity', '+inf', '-nan', '1_000.5', '1 000', '1,5', ' 7', '0x1F',
+          '1.0', '2', '-1', '1e-400', '0.1e1', '1E5', '1_0e1_0', 'yes ', ' on', '0 ', 'True ', ' None', '١٢', '１']
 
 
 def gen_value(rng, kind=None):
@@ -225,8 +236,14 @@ def gen_value(rng, kind=None):
     return gen_plain_word(rng)
 
 
-def gen_key(rng, sec, upper=False):
+ODD_KEYS = ['9k', '0', '5', 'a.b', 'x-y', 'two words', 'k[0]', '1e5', 'none', 'a/b', 'x y z', '-k', '.k', 'k.', 'a,b', '(k)', 'k*', "k'", 'a+b', '@k', '!k', '~', '_']
+EXTRA_SECTIONS = ['other', 'Fingerprinting', 'my section', 'conformer_generation2', 'PREPROCESSING', 'fingerprinting.x', 'x', 'section-1']
+
+
+def gen_key(rng, sec, upper=False, odd=False):
     r = rng.random()
+    if odd and r < 0.25:
+        return rng.choice(ODD_KEYS)
     if r < 0.75:
         k = rng.choice(G.EXPECTED_OPTIONS[sec])
     elif r < 0.9:
@@ -238,20 +255,24 @@ def gen_key(rng, sec, upper=False):
     return k
 
 
-def gen_config(rng, tricky=None, upper=False):
-    """[(section, [(key, value)])] with case-sensitively unique keys per section."""
+def gen_config(rng, tricky=None, upper=False, extras=False, odd_keys=False):
+    """[(section, [(key, value)])] with case-sensitively unique keys per section.
+    extras: with probability 0.3 one or two sections that are not in the packaged defaults file (params_to_sections_dict
+    ignores them, everything else keeps them); odd_keys: option names with digits first / punctuation / inner blanks."""
     secs = [s for s in SECTIONS if rng.random() < 0.75] or [rng.choice(SECTIONS)]
+    if extras and rng.random() < 0.3:
+        secs += rng.sample(EXTRA_SECTIONS, rng.randint(1, 2))
     rng.shuffle(secs)
     out = []
     for s in secs:
         d = {}
         for _ in range(rng.randint(0, 6)):
-            d[gen_key(rng, s, upper and rng.random() < 0.5)] = gen_value(rng)
+            d[gen_key(rng, s if s in SECTIONS else rng.choice(SECTIONS), upper and rng.random() < 0.5, odd=odd_keys)] = gen_value(rng)
         out.append((s, list(d.items())))
     if tricky is not None:
         i = rng.randrange(len(out))
         s, kv = out[i]
-        k = gen_key(rng, s)
+        k = gen_key(rng, s if s in SECTIONS else rng.choice(SECTIONS))
         kv = [(a, b) for a, b in kv if a != k]
         kv.insert(rng.randint(0, len(kv)), (k, tricky))
         out[i] = (s, kv)
@@ -270,7 +291,8 @@ def run(ctx):
     dist = {'update_form': {}, 'configs': 0, 'tricky_configs': 0, 'upper_key_configs': 0, 'values_by_type': {}, 'stage_cases': {},
             'literal_strings': 0, 'literal_unmodelled': 0, 'ini_texts': 0, 'e2e_runs': 0, 'getter_queries': 0,
             'known_class_hits': {}, 'prop_checks': 0, 'fallback_checks': 0, 'requeued_without_percent_option': 0,
-            'floats_with_15_to_17_significant_digits': 0}
+            'floats_with_15_to_17_significant_digits': 0, 'configs_with_a_section_outside_the_packaged_three': 0,
+            'configs_with_an_unusual_option_name': 0, 'getter_fallback_identity_checks': 0}
     path, dtext, dparsed = G.defaults_file()
     dmap = dict((s, dict(kv)) for s, kv in dparsed)
 
@@ -318,18 +340,21 @@ def run(ctx):
     ctx.sample({'defaults_checked_pairs': len([k for k in ctx.distinct if isinstance(k, tuple) and k[0] == 'dflt'])})
 
     # ---- cfg + prop -----------------------------------------------------------------------------------------
-    ncfg = ctx.n(300, 5000)
+    ncfg = ctx.n(360, 5000)
     plan = []
+    nt = 0
     for i in range(ncfg):
         r = i % 10
-        if r < 6:
+        if r < 5:
             plan.append(('plain', None))
-        elif r < 8:
-            plan.append(('tricky', TRICKY[(i // 10 * 2 + (r - 6)) % len(TRICKY)] if i < 10 * len(TRICKY) else rng.choice(TRICKY)))
-        elif r == 8:
-            plan.append(('upper', None))
+        elif r < 9:
+            # every entry of TRICKY once (the quick tier has 144 of these slots), then random ones
+            plan.append(('tricky', TRICKY[nt] if nt < len(TRICKY) else rng.choice(TRICKY)))
+            nt += 1
         else:
-            plan.append(('plain', None))
+            plan.append(('upper', None))
+    if nt < len(TRICKY):
+        raise RuntimeError('generator self-check: %d tricky slots for %d tricky strings' % (nt, len(TRICKY)))
     # worklist: a configuration that cannot be written / read because of a '%' value whose failure is exactly the known
     # one is re-queued without that option, so that all its other options are still compared
     work = [(ci, '', mode, tricky, None) for ci, (mode, tricky) in enumerate(plan)]
@@ -343,7 +368,9 @@ def run(ctx):
             _direct_nonascii(ctx, P, tricky, known)
             found_input = found_input or len(ctx.violations) > nv0
             continue
-        conf = given if given is not None else gen_config(rng, tricky=tricky, upper=(mode == 'upper'))
+        conf = given if given is not None else gen_config(rng, tricky=tricky, upper=(mode == 'upper'), extras=True, odd_keys=(ci % 5 == 0))
+        dist['configs_with_a_section_outside_the_packaged_three'] += any(s not in SECTIONS for s, _ in conf)
+        dist['configs_with_an_unusual_option_name'] += any(k in ODD_KEYS for _, kv in conf for k, _ in kv)
         if given is not None:
             dist['requeued_without_percent_option'] += 1
         dist['configs'] += 1
@@ -436,6 +463,16 @@ def run(ctx):
                  'params_to_dicts defaults_cfg_text %s' % tlit)
         ctx.count((tag, 'sd'), True)
         ctx.count((tag, 'pd'), True)
+        # params_to_sections_dict(auto=False): the interpolated strings, untyped (keyword and positional call)
+        r_sr = attempt(lambda: [(s, list(d.items())) for s, d in (P.params_to_sections_dict(fn, auto=False) if ci % 2 else P.params_to_sections_dict(fn, False)).items()])
+        if r_sr[0] != 'ok' or all(type(v) is str and G.modelled(v) for _, kv in r_sr[1] for _, v in kv):
+            add_stage('sections_dict_raw', tag + '/sr', 'result_match cfg_eqb (cov_sections_dict_raw defaults_cfg_text %s) %s' % (tlit, res_lit(r_sr, cfg_lit)),
+                      {'config': conf_json, 'file_text': text, 'impl_sections_dict_auto_False_or_error': repr(r_sr[1:])[:1500]},
+                      'cov_sections_dict_raw defaults_cfg_text %s' % tlit)
+        else:
+            found_input = True
+            ctx.fail('params_to_sections_dict(auto=False) returns a value that is not a string', {'config': conf_json, 'file_text': text, 'got': repr(r_sr[1:])[:1500]})
+        ctx.count((tag, 'sr'), True)
 
         # stage 6: typed getters on the parser read back (present and absent options, every dtype)
         if r_read[0] == 'ok':
@@ -449,6 +486,12 @@ def run(ctx):
                                                ('bool', 'get_bool', 'obool_eqb', lambda x: core.optlit(x, core.blit)), ('str', 'get_str', 'String.eqb', S)):
                     pyt = {'int': int, 'float': float, 'bool': bool, 'str': str}[dt]
                     rg = attempt(lambda: P.get_value(cp, s, k, dtype=pyt, fallback=sent))
+                    dist['getter_fallback_identity_checks'] += 1
+                    if rg[0] == 'ok' and rg[1] is not sent and type(rg[1]) is not pyt:
+                        found_input = True
+                        ctx.fail('get_value(dtype=%s, fallback=<object>) returned %r: neither a %s nor the fallback given' % (dt, rg[1], dt),
+                                 {'config': conf_json, 'file_text': text, 'fill_defaults': fill, 'section': s, 'option': k, 'dtype': dt, 'got': repr(rg[1])})
+                        continue
                     if rg[0] == 'ok':
                         v = rg[1]
                         if dt == 'str':
@@ -617,6 +660,23 @@ def run(ctx):
         r = attempt(rd)
         add_case('ini', 'ini/%d' % i, 'result_match cfg_eqb (parse_file %s) %s' % (S(text), res_lit(r, cfg_lit)),
                  {'text': text, 'impl': r[1:]}, 'parse_file %s' % S(text))
+        if r[0] == 'ok':
+            # a hand-written file through the typed readers and on top of the packaged defaults
+            def rdfill():
+                cp = P.read_params(fn, fill_defaults=True)
+                return [(s, [(k, cp.get(s, k, raw=True)) for k in cp.options(s)]) for s in cp.sections()]
+            r_f = attempt(rdfill)
+            r_sd = attempt(lambda: [(s, list(d.items())) for s, d in P.params_to_sections_dict(fn).items()])
+            r_pd = attempt(lambda: tuple(list(d.items()) for d in pipeline.params_to_dicts(fn)))
+            sd_lit = res_lit(r_sd, lambda sd: core.listlit(['(%s, %s)' % (S(s), dict_lit(kv, obs_lit)) for s, kv in sd]))
+            pd_lit = res_lit(r_pd, lambda pd: '(%s, %s)' % (dict_lit(pd[0], obs_lit), dict_lit(pd[1], obs_lit)))
+            add_case('ini_typed', 'ini/%d/typed' % i,
+                     'let t := %s in result_match cfg_eqb (read_params defaults_cfg_text true (Some t)) %s && '
+                     'result_match sdict_matches (params_to_sections_dict defaults_cfg_text t) %s && '
+                     'result_match (pair_match dict_matches dict_matches) (params_to_dicts defaults_cfg_text t) %s'
+                     % (S(text), res_lit(r_f, cfg_lit), sd_lit, pd_lit),
+                     {'text': text, 'typed': True, 'impl_read_with_defaults': repr(r_f[1:])[:1200], 'impl_sections_dict': repr(r_sd[1:])[:1200], 'impl_params_to_dicts': repr(r_pd[1:])[:1200]},
+                     'let t := %s in (read_params defaults_cfg_text true (Some t), params_to_sections_dict defaults_cfg_text t, params_to_dicts defaults_cfg_text t)' % S(text))
         ctx.count(('ini', text), r[0] == 'ok' and len(r[1]) > 0)
         dist['ini_texts'] += 1
 
@@ -632,6 +692,11 @@ def run(ctx):
         m = 'is_ok (py_str (VInt %s))' % zl if (r[0] != 'ok' or not ctx.quick) else 'negb (int_limit <=? Z.abs %s)' % zl
         add_case('int_limit', 'lim/%d' % len(cases), 'Bool.eqb (%s) %s' % (m, core.blit(r[0] == 'ok')), {'z': zl, 'impl': r[0]})
         ctx.count(('lim', zl), True)
+
+    # ---- cov: the streams of the coverage audit (c20_cov.py) ---------------------------------------------------------
+    if COV.run_part(ctx, sys.modules[__name__], P, pipeline,
+                    {'add_case': add_case, 'known': known, 'dist': dist, 'defaults_path': path, 'defaults_parsed': dparsed, 'dmap': dmap}):
+        found_input = True
 
     for k in cases[:2] + cases[len(cases) // 3:len(cases) // 3 + 2] + cases[-2:]:
         ctx.sample({'case': k[0], 'input_and_implementation_result': payloads[k[0]], 'model_check': k[1][:500]})
@@ -656,7 +721,13 @@ def run(ctx):
                             '(entry point, option) pair. Non-trivial = a non-empty configuration / a text with at least one section; distinct by full input. '
                             'EXCLUDED FROM THE MODEL COMPARISON: strings the three-valued classifier answers CUnmodelled for (quoted strings, bracketed containers, '
                             'number-like and sign-led non-tokens: @UNM@ of @LIT@ literal-stream strings on this run, counted per class in input_distribution.literal_unmodelled_by_class); '
-                            'for those only the implementation-side outcome test of the prop stream applies (read back == ast.literal_eval(written) or unkeyed violation).')
+                            'for those only the implementation-side outcome test of the prop stream applies (read back == ast.literal_eval(written) or unkeyed violation). '
+                            'cov (coverage audit, c20_cov.py; counters under input_distribution.cov): 30% of the configurations carry sections outside the packaged three, every fifth draws '
+                            'unusual option names, every tricky string is used at least once; params_to_sections_dict(auto=False); hand-written INI texts also through the typed readers; '
+                            'read_params without a user file / missing file / pathlib / bytes / parser object; update_params in six call forms on a user file or parser object; '
+                            'typed getters on hand-picked raw values with identity of the fallback object; get_default_value per packaged option; numpy scalar values; '
+                            'multi-conformer molecules, fingerprint.generate.run(params=) vs keywords, conformer options (confs_from_smiles, fprints_from_smiles, save with out_dir/compress, '
+                            'conformer.generate.run(params=)) vs keywords, contradicting keywords next to params= must lose.')
     ctx.coverage['rule'] = ctx.coverage['rule'].replace('@UNM@', str(dist['literal_unmodelled'])).replace('@LIT@', str(dist['literal_strings']))
     ctx.coverage['input_distribution'] = dist
     ctx.assumptions += [
@@ -670,6 +741,11 @@ def run(ctx):
         'interpolation references %(name)s to options that exist are not modelled and not generated',
         'ints with more than sys.get_int_max_str_digits() digits cannot be printed by CPython (ValueError): modelled, boundary checked on the implementation',
         'argparse defaults are read off the parser objects built inside main() (parse_args intercepted); a string default goes through the action type as argparse does',
+        'cov/routing: the worker functions of the two batch entry points (fingerprint.generate.fprints_dict_from_sdf, conformer.generate.generate_conformers / mol_from_smiles) are '
+        'replaced by recorders in the harness process (module attribute, serial mode; no source hook) to observe the typed option values run(params=file) hands down',
+        'cov/e2e_confgen relies on RDKit conformer generation being deterministic for a fixed seed (seed -1 is never drawn there); both call forms run in the same process',
+        'a [DEFAULT] section in a user file (configparser propagates it into every section) is neither modelled nor generated',
+        'cov_sections_dict_raw (params_to_sections_dict(auto=False)) is a Gallina helper defined in the harness (c20_cov.PRELUDE) on top of Model/Config.v; no theorem is stated about it',
     ]
     if not ok:
         core.report_broken_proof(ctx, res, found_input)
@@ -774,7 +850,13 @@ def value_outcome(v, got):
 
 def _prop_roundtrip(ctx, conf, r_sd, known, conf_json, text, dist):
     sd = dict((s, dict(kv)) for s, kv in r_sd[1])
+    for s in sd:
+        if s not in SECTIONS:
+            ctx.fail('params_to_sections_dict returned the section %r, which the packaged defaults file does not have' % s,
+                     {'section': s, 'config': conf_json, 'file_text': text})
     for s, kv in conf:
+        if s not in SECTIONS:
+            continue                     # the property speaks about the three packaged sections; others are compared with the model only
         got_d = sd.get(s, {})
         last = {}
         for k, v in kv:
@@ -832,7 +914,8 @@ def _gen_ini(rng):
         lines.append(rng.choice(['[%s]', '[%s]', '[%s]  ', '  [%s]', '[%s] trailing']) % n)
         keys = rng.sample(['level', 'bits', 'first', 'Stereo', 'out_dir', 'k', 'two words', 'a.b', 'x-y', 'level'], rng.randint(0, 4))
         for k in keys:
-            v = rng.choice(['5', '1.718', 'True', 'None', 'uff', 'a b', 'x = y', 'p:q', '', '  sp  ', '#notcomment', 'v ; w', '[v]', '%%', 'q%(z)s'])
+            v = rng.choice(['5', '1.718', 'True', 'None', 'uff', 'a b', 'x = y', 'p:q', '', '  sp  ', '#notcomment', 'v ; w', '[v]', '%%', 'q%(z)s',
+                            '-1', '2.5e-3', 'False', 'yes', '0x10', '1_000', 'None  ', '1.7182818284590453', 'true', '1e16', '-0.0', '2  ; two'])
             d = rng.choice([' = ', '=', ' : ', ':', ' =', '= ', '\t=\t'])
             lines.append(rng.choice(['', '', '', ' ']) + k + d + v)
             r = rng.random()
@@ -966,6 +1049,25 @@ def _replay_config(ctx, P, pipeline, conf, forms, fills):
         m = 'params_to_dicts defaults_cfg_text %s' % tl
         bad += not _replay_eval(ctx, 'params_to_dicts', 'result_match (pair_match dict_matches dict_matches) (%s) %s' % (
             m, res_lit(r_pd, lambda pd: '(%s, %s)' % (dict_lit(pd[0], obs_lit), dict_lit(pd[1], obs_lit)))), m)
+        r_sr = attempt(lambda: [(s, list(d.items())) for s, d in P.params_to_sections_dict(fn, auto=False).items()])
+        print(' params_to_sections_dict(auto=False) -> %s' % (r_sr[1:],))
+        if r_sr[0] != 'ok' or all(type(v) is str and G.modelled(v) for _, kv in r_sr[1] for _, v in kv):
+            m = 'cov_sections_dict_raw defaults_cfg_text %s' % tl
+            bad += not _replay_eval(ctx, 'sections_dict(auto=False)', 'result_match cfg_eqb (%s) %s' % (m, res_lit(r_sr, cfg_lit)), m)
+        else:
+            print('  a value that is not a string')
+            bad += 1
+        # typed getters: the fallback object comes back, never None
+        if r_sd[0] == 'ok':
+            cp_ = P.read_params(fn)
+            sent_ = object()
+            for s_, kv_ in conf:
+                for k_, _ in kv_:
+                    for pyt in (int, float, bool, str):
+                        rg = attempt(lambda: P.get_value(cp_, s_, k_, dtype=pyt, fallback=sent_))
+                        if rg[0] == 'ok' and rg[1] is not sent_ and type(rg[1]) is not pyt:
+                            print('  get_value(%s.%s, dtype=%s, fallback=<object>) returned %r' % (s_, k_, pyt.__name__, rg[1]))
+                            bad += 1
         if r_sd[0] != 'ok':
             red = _explain_failure(ctx, P, conf, 'read', r_sd, known, conf_json, text)
             if red is not None:
@@ -1000,7 +1102,10 @@ def replay(ctx, path):
     bad = 0
     nviol = [0]
     try:
-        if 'config' in case:
+        cov = COV.replay_case(ctx, sys.modules[__name__], P, pipeline, case) if isinstance(case, dict) else None
+        if cov is not None:
+            bad += cov
+        elif 'config' in case:
             conf = _conf_from_json(case['config'])
             forms = [case['update_params_form']] if case.get('update_params_form') else ['single_section', 'sections_dict']
             fills = [case['fill_defaults']] if 'fill_defaults' in case else [False, True]
@@ -1033,6 +1138,21 @@ def replay(ctx, path):
             r = attempt(rd)
             print('text:\n%s\nConfigParser -> %s' % (case['text'], r[1:]))
             bad += not _replay_eval(ctx, 'ini', 'result_match cfg_eqb (parse_file %s) %s' % (S(case['text']), res_lit(r, cfg_lit)), 'parse_file %s' % S(case['text']))
+            if case.get('typed') and r[0] == 'ok':
+                def rdfill():
+                    cp = P.read_params(fn, fill_defaults=True)
+                    return [(s, [(k, cp.get(s, k, raw=True)) for k in cp.options(s)]) for s in cp.sections()]
+                r_f = attempt(rdfill)
+                r_sd = attempt(lambda: [(s, list(d.items())) for s, d in P.params_to_sections_dict(fn).items()])
+                r_pd = attempt(lambda: tuple(list(d.items()) for d in pipeline.params_to_dicts(fn)))
+                print('read_params(fill_defaults=True) -> %s\nparams_to_sections_dict -> %s\nparams_to_dicts -> %s' % (r_f[1:], r_sd[1:], r_pd[1:]))
+                tl = S(case['text'])
+                bad += not _replay_eval(ctx, 'read on top of the defaults', 'result_match cfg_eqb (read_params defaults_cfg_text true (Some %s)) %s' % (tl, res_lit(r_f, cfg_lit)),
+                                        'read_params defaults_cfg_text true (Some %s)' % tl)
+                bad += not _replay_eval(ctx, 'sections_dict', 'result_match sdict_matches (params_to_sections_dict defaults_cfg_text %s) %s' % (
+                    tl, res_lit(r_sd, lambda sd: core.listlit(['(%s, %s)' % (S(s), dict_lit(kv, obs_lit)) for s, kv in sd]))), 'params_to_sections_dict defaults_cfg_text %s' % tl)
+                bad += not _replay_eval(ctx, 'params_to_dicts', 'result_match (pair_match dict_matches dict_matches) (params_to_dicts defaults_cfg_text %s) %s' % (
+                    tl, res_lit(r_pd, lambda pd: '(%s, %s)' % (dict_lit(pd[0], obs_lit), dict_lit(pd[1], obs_lit)))), 'params_to_dicts defaults_cfg_text %s' % tl)
         elif 'token' in case:
             tok = case['token']
             fl = G.ftok_literal(tok)
